@@ -143,6 +143,9 @@ func cmdCheck(args []string) int {
 	var results []*HarnessResult
 	exit := 0
 	var inconclusive []string
+	for _, d := range w.dropped {
+		inconclusive = append(inconclusive, "harness file "+d+" does not compile against this tree (it inspects internals that changed): its harnesses were skipped")
+	}
 	violLines := 0
 	for _, h := range hs {
 		if *only != "" && h.Name() != *only {
